@@ -42,7 +42,12 @@ func familyFor(p *Property, e *LedgerEntry) string {
 		return "skip"
 	case "C11":
 		return "skipfast"
-	case "C10", "C16":
+	case "C16":
+		if e.Kind == "ensures" || strings.HasPrefix(e.Kind, "inv") {
+			return "appenddst"
+		}
+		return "safety"
+	case "C10":
 		return "safety"
 	case "C09":
 		if e.Kind == "err-identity" || strings.Contains(e.Name, "C09") {
@@ -210,6 +215,8 @@ func concreteReplay(eng *Engine, p *Property, e *LedgerEntry, fp *FuncProof, bas
 	switch family {
 	case "decode":
 		add([]byte(`nul-019 "t`)...)
+	case "appenddst":
+		add([]byte("\"\\nu0a D8")...)
 	case "readint":
 		add([]byte(`-0189 .e`)...)
 	case "token":
